@@ -1626,3 +1626,193 @@ NEW2 += [
 ]
 
 VARIANTS += NEW2
+
+# ---- third pass. class: a rule about EVERY element of a list, established by a loop of its own -----------------------
+# (the per-scope format rule split from the counting loop, moved into a per-statement helper; "the list does not contain the
+# wildcard" spelled as a loop instead of slices.Contains; the singleton list decided on its only element)
+ZERO_MSG = 'fmt.Errorf("oci trust policy statement %q has zero registry scopes, it must specify registry scopes with at least one value", '
+WILD_MSG = 'fmt.Errorf("oci trust policy statement %q uses wildcard registry scope \'*\', a wildcard scope cannot be used in conjunction with other scope values", '
+SC_PRESENT = '\t\tif len(statement.RegistryScopes) == 0 {\n\t\t\treturn ' + ZERO_MSG + 'statement.Name)\n\t\t}\n'
+SC_WILD = '\t\tif len(statement.RegistryScopes) > 1 && slices.Contains(statement.RegistryScopes, trustpolicy.Wildcard) {\n\t\t\treturn ' + WILD_MSG + 'statement.Name)\n\t\t}\n'
+SC_LOOP = ('\t\tfor _, scope := range statement.RegistryScopes {\n\t\t\tif scope != trustpolicy.Wildcard {\n\t\t\t\tif err := validateRegistryScopeFormat(scope); err != nil {\n\t\t\t\t\treturn err\n\t\t\t\t}\n\t\t\t}\n'
+           '\t\t\tregistryScopeCount[scope]++\n\t\t}\n')
+SC_STMT = '\t\t// Verify registry scopes are valid\n' + SC_PRESENT + SC_WILD + SC_LOOP
+SC_COUNT = '\t\tfor _, scope := range statement.RegistryScopes {\n\t\t\tregistryScopeCount[scope]++\n\t\t}\n'
+SC_FORMAT = ('\t\tfor _, scope := range statement.RegistryScopes {\n\t\t\tif scope != trustpolicy.Wildcard {\n\t\t\t\tif err := validateRegistryScopeFormat(scope); err != nil {\n\t\t\t\t\treturn err\n\t\t\t\t}\n\t\t\t}\n\t\t}\n')
+SC_DECL_AT = 'func getArtifactPathFromReference(artifactReference string) (string, error) {\n'
+ST_HELPER = '''// validateStatementScopes validates the registry scopes of a single policy
+// statement
+func validateStatementScopes(statementName string, registryScopes []string) error {
+	if len(registryScopes) == 0 {
+		return ''' + ZERO_MSG + '''statementName)
+	}
+	if len(registryScopes) == 1 && registryScopes[0] == trustpolicy.Wildcard {
+		// a wildcard scope on its own
+		return nil
+	}
+	for _, scope := range registryScopes {
+		if scope == trustpolicy.Wildcard {
+			return ''' + WILD_MSG + '''statementName)
+		}
+	}
+	for _, scope := range registryScopes {
+		if err := validateRegistryScopeFormat(scope); err != nil {
+			return err
+		}
+	}
+	return nil
+}
+
+'''
+ST_CALL = '\t\tif err := validateStatementScopes(statement.Name, statement.RegistryScopes); err != nil {\n\t\t\treturn err\n\t\t}\n'
+def st_helper(find=None, replace=None, call=ST_CALL, helper=ST_HELPER):
+    if find is not None:
+        assert helper.count(find) == 1, find
+        helper = helper.replace(find, replace)
+    return [(O, SC_STMT, call + SC_COUNT), (O, SC_DECL_AT, helper + SC_DECL_AT)]
+WILD_LOOP = '\tfor _, scope := range registryScopes {\n\t\tif scope == trustpolicy.Wildcard {\n\t\t\treturn ' + WILD_MSG + 'statementName)\n\t\t}\n\t}\n'
+FMT_LOOP = '\tfor _, scope := range registryScopes {\n\t\tif err := validateRegistryScopeFormat(scope); err != nil {\n\t\t\treturn err\n\t\t}\n\t}\n'
+SINGLETON = '\tif len(registryScopes) == 1 && registryScopes[0] == trustpolicy.Wildcard {\n'
+# the format loop alone in a helper
+FM_HELPER = '''// validateScopeFormats validates the format of every scope that is not the wildcard
+func validateScopeFormats(scopes []string) error {
+	for _, scope := range scopes {
+		if scope == trustpolicy.Wildcard {
+			continue
+		}
+		if err := validateRegistryScopeFormat(scope); err != nil {
+			return err
+		}
+	}
+	return nil
+}
+
+'''
+FM_CALL = '\t\tif err := validateScopeFormats(statement.RegistryScopes); err != nil {\n\t\t\treturn err\n\t\t}\n'
+def fm_helper(find=None, replace=None, call=FM_CALL):
+    helper = FM_HELPER
+    if find is not None:
+        assert helper.count(find) == 1, find
+        helper = helper.replace(find, replace)
+    return [(O, SC_LOOP, call + SC_COUNT), (O, SC_DECL_AT, helper + SC_DECL_AT)]
+# the statement's scope rules as a method of the statement
+ST_METHOD = (ST_HELPER.replace('func validateStatementScopes(statementName string, registryScopes []string) error {', 'func (t *OCITrustPolicy) validateScopes() error {')
+             .replace('statementName)', 't.Name)').replace('registryScopes', 't.RegistryScopes').replace('// validateStatementScopes validates', '// validateScopes validates'))
+ST_METHOD_CALL = '\t\tif err := statement.validateScopes(); err != nil {\n\t\t\treturn err\n\t\t}\n'
+# the wildcard rule as a loop, in place
+WILD_INLINE = ('\t\tif len(statement.RegistryScopes) > 1 {\n\t\t\tfor _, scope := range statement.RegistryScopes {\n\t\t\t\tif scope == trustpolicy.Wildcard {\n\t\t\t\t\treturn ' + WILD_MSG + 'statement.Name)\n\t\t\t\t}\n\t\t\t}\n\t\t}\n')
+# ... and through a boolean predicate
+HAS_WILD = '''// hasWildcardScope reports whether one of the scopes is the wildcard
+func hasWildcardScope(scopes []string) bool {
+	for _, scope := range scopes {
+		if scope == trustpolicy.Wildcard {
+			return true
+		}
+	}
+	return false
+}
+
+'''
+HAS_WILD_USE = [(O, 'slices.Contains(statement.RegistryScopes, trustpolicy.Wildcard) {', 'hasWildcardScope(statement.RegistryScopes) {'), (O, SC_DECL_AT, HAS_WILD + SC_DECL_AT)]
+# the identity wildcard rule as a loop
+TI_WILD = '\tif len(tis) > 1 && slices.Contains(tis, trustpolicy.Wildcard) {\n\t\treturn fmt.Errorf("trust policy statement %q uses a wildcard trusted identity \'*\', a wildcard identity cannot be used in conjunction with other values", policyName)\n\t}\n'
+TI_NO_SLICES = (T, '\t"github.com/notaryproject/notation-go/internal/slices"\n', '')
+TI_WILD_LOOP = ('\tif len(tis) > 1 {\n\t\tfor _, ti := range tis {\n\t\t\tif ti == trustpolicy.Wildcard {\n\t\t\t\treturn fmt.Errorf("trust policy statement %q uses a wildcard trusted identity \'*\', a wildcard identity cannot be used in conjunction with other values", policyName)\n\t\t\t}\n\t\t}\n\t}\n')
+NEW3 = [
+ # -- the shape of the held-out refactoring: per-statement helper (singleton decided first, wildcard loop, format loop), counting left behind
+ dict(name='benign-statement-scopes-helper', expect='silent', edits=st_helper()),
+ dict(name='benign-statement-scopes-helper-loops-swapped', expect='silent',
+      edits=st_helper(WILD_LOOP + FMT_LOOP, FMT_LOOP.replace('\t\tif err := validateRegistryScopeFormat(scope); err != nil {', '\t\tif scope == trustpolicy.Wildcard {\n\t\t\tcontinue\n\t\t}\n\t\tif err := validateRegistryScopeFormat(scope); err != nil {') + WILD_LOOP)),
+ dict(name='benign-statement-scopes-helper-index-loops', expect='silent',
+      edits=st_helper(WILD_LOOP + FMT_LOOP, '\tfor i := 0; i < len(registryScopes); i++ {\n\t\tif registryScopes[i] == trustpolicy.Wildcard {\n\t\t\treturn ' + WILD_MSG + 'statementName)\n\t\t}\n\t}\n'
+                      '\tfor i := range registryScopes {\n\t\tif err := validateRegistryScopeFormat(registryScopes[i]); err != nil {\n\t\t\treturn err\n\t\t}\n\t}\n')),
+ dict(name='benign-statement-scopes-helper-counts-first', expect='silent', edits=[(O, SC_STMT, SC_COUNT + ST_CALL), st_helper()[1]]),
+ dict(name='benign-statement-scopes-helper-length-switch', expect='silent',
+      edits=st_helper(SINGLETON + '\t\t// a wildcard scope on its own\n\t\treturn nil\n\t}\n', '\tif len(registryScopes) < 2 {\n\t\tif registryScopes[0] == trustpolicy.Wildcard {\n\t\t\treturn nil\n\t\t}\n\t\treturn validateRegistryScopeFormat(registryScopes[0])\n\t}\n')),
+ dict(name='statement-scopes-helper-singleton-any-length', expect='flagged(scope/wildcard-alone)',
+      edits=st_helper(SINGLETON, '\tif registryScopes[0] == trustpolicy.Wildcard {\n')),
+ dict(name='statement-scopes-helper-singleton-any-length-format', expect='flagged(scope/format)',
+      edits=st_helper(SINGLETON, '\tif len(registryScopes) >= 1 && registryScopes[0] == trustpolicy.Wildcard {\n')),
+ dict(name='statement-scopes-helper-singleton-last-element', expect='flagged(scope/format)',
+      edits=st_helper(SINGLETON, '\tif len(registryScopes) <= 2 && registryScopes[0] == trustpolicy.Wildcard {\n')),
+ dict(name='statement-scopes-helper-wildcard-loop-first-only', expect='flagged(scope/wildcard-alone)',
+      edits=st_helper('\t\tif scope == trustpolicy.Wildcard {\n\t\t\treturn ' + WILD_MSG + 'statementName)\n\t\t}\n\t}\n', '\t\tif scope == trustpolicy.Wildcard {\n\t\t\treturn ' + WILD_MSG + 'statementName)\n\t\t}\n\t\tbreak\n\t}\n')),
+ dict(name='statement-scopes-helper-wildcard-loop-accepts', expect='flagged(scope/wildcard-alone)',
+      edits=st_helper('\t\tif scope == trustpolicy.Wildcard {\n\t\t\treturn ' + WILD_MSG + 'statementName)\n', '\t\tif scope == trustpolicy.Wildcard {\n\t\t\treturn nil\n')),
+ dict(name='statement-scopes-helper-wildcard-loop-tail', expect='flagged(scope/wildcard-alone)',
+      edits=st_helper('\tfor _, scope := range registryScopes {\n\t\tif scope == trustpolicy.Wildcard {', '\tfor _, scope := range registryScopes[1:] {\n\t\tif scope == trustpolicy.Wildcard {')),
+ dict(name='statement-scopes-helper-wildcard-loop-other-constant', expect='flagged(scope/wildcard-alone)',
+      edits=st_helper('\tfor _, scope := range registryScopes {\n\t\tif scope == trustpolicy.Wildcard {', '\tfor _, scope := range registryScopes {\n\t\tif scope == "**" {')),
+ dict(name='statement-scopes-helper-format-loop-tail', expect='flagged(scope/format)',
+      edits=st_helper('\tfor _, scope := range registryScopes {\n\t\tif err := validateRegistryScopeFormat(scope)', '\tfor _, scope := range registryScopes[1:] {\n\t\tif err := validateRegistryScopeFormat(scope)')),
+ dict(name='statement-scopes-helper-format-loop-every-other', expect='flagged(scope/format)',
+      edits=st_helper('\tfor _, scope := range registryScopes {\n\t\tif err := validateRegistryScopeFormat(scope)', '\tfor i, scope := range registryScopes {\n\t\tif i%2 == 1 {\n\t\t\tcontinue\n\t\t}\n\t\tif err := validateRegistryScopeFormat(scope)')),
+ dict(name='statement-scopes-helper-format-loop-step-two', expect='flagged(scope/format)',
+      edits=st_helper(FMT_LOOP, '\tfor i := 0; i < len(registryScopes); i += 2 {\n\t\tif err := validateRegistryScopeFormat(registryScopes[i]); err != nil {\n\t\t\treturn err\n\t\t}\n\t}\n')),
+ dict(name='statement-scopes-helper-format-loop-other-element', expect='flagged(scope/format)',
+      edits=st_helper(FMT_LOOP, '\tfor range registryScopes {\n\t\tif err := validateRegistryScopeFormat(registryScopes[0]); err != nil {\n\t\t\treturn err\n\t\t}\n\t}\n')),
+ dict(name='statement-scopes-helper-format-error-kept-for-long-scopes', expect='flagged(scope/format)',
+      edits=st_helper('\t\tif err := validateRegistryScopeFormat(scope); err != nil {\n\t\t\treturn err\n\t\t}\n\t}\n\treturn nil', '\t\tif err := validateRegistryScopeFormat(scope); err != nil && len(scope) > 3 {\n\t\t\treturn err\n\t\t}\n\t}\n\treturn nil')),
+ dict(name='statement-scopes-helper-format-loop-early-accept', expect='flagged(scope/format)',
+      edits=st_helper('\tfor _, scope := range registryScopes {\n\t\tif err := validateRegistryScopeFormat(scope)', '\tfor _, scope := range registryScopes {\n\t\tif scope == statementName {\n\t\t\tbreak\n\t\t}\n\t\tif err := validateRegistryScopeFormat(scope)')),
+ dict(name='statement-scopes-helper-result-dropped', expect='flagged(scope/)',
+      edits=st_helper(call='\t\t_ = validateStatementScopes(statement.Name, statement.RegistryScopes)\n')),
+ dict(name='statement-scopes-helper-other-statement', expect='flagged(scope/)',
+      edits=st_helper(call='\t\tif err := validateStatementScopes(statement.Name, policyDoc.TrustPolicies[0].RegistryScopes); err != nil {\n\t\t\treturn err\n\t\t}\n')),
+ dict(name='statement-scopes-helper-only-named-statements', expect='flagged(scope/)',
+      edits=st_helper(call='\t\tif err := validateStatementScopes(statement.Name, statement.RegistryScopes); err != nil && statement.Name != "" {\n\t\t\treturn err\n\t\t}\n')),
+ # -- further members of the class: the loops split in place; the format loop alone in a helper; a method of the statement
+ dict(name='benign-scope-loops-split-in-place', expect='silent', edits=[(O, SC_LOOP, SC_FORMAT + SC_COUNT)]),
+ dict(name='benign-scope-loops-split-count-first', expect='silent', edits=[(O, SC_STMT, SC_COUNT + SC_WILD + SC_FORMAT + SC_PRESENT)]),
+ dict(name='scope-loops-split-format-breaks', expect='flagged(scope/format)',
+      edits=[(O, SC_LOOP, SC_FORMAT.replace('\t\t\t\t\treturn err\n\t\t\t\t}\n\t\t\t}\n\t\t}\n', '\t\t\t\t\treturn err\n\t\t\t\t}\n\t\t\t}\n\t\t\tbreak\n\t\t}\n') + SC_COUNT)]),
+ dict(name='scope-loops-split-count-tail', expect='flagged(scope/)',
+      edits=[(O, SC_LOOP, SC_FORMAT + SC_COUNT.replace('range statement.RegistryScopes {', 'range statement.RegistryScopes[1:] {'))]),
+ dict(name='benign-scope-formats-helper', expect='silent', edits=fm_helper()),
+ dict(name='scope-formats-helper-skips-last', expect='flagged(scope/format)', edits=fm_helper('\tfor _, scope := range scopes {', '\tfor _, scope := range scopes[:len(scopes)-1] {')),
+ dict(name='scope-formats-helper-continue-on-error', expect='flagged(scope/format)', edits=fm_helper('\t\tif err := validateRegistryScopeFormat(scope); err != nil {\n\t\t\treturn err\n', '\t\tif err := validateRegistryScopeFormat(scope); err != nil {\n\t\t\tcontinue\n')),
+ dict(name='scope-formats-helper-only-for-several', expect='flagged(scope/format)',
+      edits=fm_helper(call='\t\tif len(statement.RegistryScopes) > 1 {\n\t\t\tif err := validateScopeFormats(statement.RegistryScopes); err != nil {\n\t\t\t\treturn err\n\t\t\t}\n\t\t}\n')),
+ dict(name='benign-statement-scopes-method', expect='silent', edits=[(O, SC_STMT, ST_METHOD_CALL + SC_COUNT), (O, SC_DECL_AT, ST_METHOD + SC_DECL_AT)]),
+ dict(name='statement-scopes-method-stores-instead', expect='flagged(scope/)',
+      edits=[(O, SC_STMT, ST_METHOD_CALL + SC_COUNT), (O, SC_DECL_AT, ST_METHOD.replace('\tfor _, scope := range t.RegistryScopes {\n\t\tif err := validateRegistryScopeFormat(scope)', '\tfor _, scope := range t.TrustStores {\n\t\tif err := validateRegistryScopeFormat(scope)') + SC_DECL_AT)]),
+ # -- "does not contain the wildcard" as a loop: in place, through a boolean predicate, for the identities
+ dict(name='benign-scope-wildcard-loop-in-place', expect='silent', edits=[(O, SC_WILD, WILD_INLINE)]),
+ dict(name='scope-wildcard-loop-in-place-more-than-two', expect='flagged(scope/wildcard-alone)', edits=[(O, SC_WILD, WILD_INLINE.replace('> 1 {', '> 2 {'))]),
+ dict(name='scope-wildcard-loop-in-place-continue-outer', expect='flagged(scope/wildcard-alone)',
+      edits=[(O, SC_WILD, WILD_INLINE.replace('\t\t\t\tif scope == trustpolicy.Wildcard {\n', '\t\t\t\tif scope == statement.Name {\n\t\t\t\t\tbreak\n\t\t\t\t}\n\t\t\t\tif scope == trustpolicy.Wildcard {\n'))]),
+ dict(name='benign-scope-wildcard-predicate-loop', expect='silent', edits=HAS_WILD_USE),
+ dict(name='scope-wildcard-predicate-loop-tail', expect='flagged(scope/wildcard-alone)',
+      edits=[HAS_WILD_USE[0], (O, SC_DECL_AT, HAS_WILD.replace('range scopes {', 'range scopes[1:] {') + SC_DECL_AT)]),
+ dict(name='scope-wildcard-predicate-loop-inverted', expect='flagged(scope/wildcard-alone)',
+      edits=[HAS_WILD_USE[0], (O, SC_DECL_AT, HAS_WILD.replace('\t\t\treturn true\n\t\t}\n\t}\n\treturn false', '\t\t\treturn false\n\t\t}\n\t}\n\treturn true') + SC_DECL_AT)]),
+ dict(name='benign-identity-wildcard-loop', expect='silent', edits=[(T, TI_WILD, TI_WILD_LOOP), TI_NO_SLICES]),
+ dict(name='identity-wildcard-loop-tail', expect='flagged(identity/wildcard-alone)', edits=[(T, TI_WILD, TI_WILD_LOOP.replace('range tis {', 'range tis[1:] {')), TI_NO_SLICES]),
+ dict(name='identity-wildcard-loop-more-than-two', expect='flagged(identity/wildcard-alone)', edits=[(T, TI_WILD, TI_WILD_LOOP.replace('len(tis) > 1 {', 'len(tis) > 2 {')), TI_NO_SLICES]),
+ dict(name='identity-wildcard-loop-accepts', expect='flagged(identity/wildcard-alone)',
+      edits=[(T, TI_WILD, TI_WILD_LOOP.replace('\t\t\t\treturn fmt.Errorf("trust policy statement %q uses a wildcard trusted identity', '\t\t\t\tbreak\n\t\t\t\treturn fmt.Errorf("trust policy statement %q uses a wildcard trusted identity')), TI_NO_SLICES]),
+]
+VARIANTS += NEW3
+
+# -- the same class for the trust store entries: one loop per rule, the second one in place or in a helper
+TS_NAME = ('\t\tif !file.IsValidFileName(namedStore) {\n\t\t\treturn fmt.Errorf("trust policy statement %q uses an unsupported trust store name %q in trust store value %q. Named store name needs to follow [a-zA-Z0-9_.-]+ format", policyName, namedStore, trustStore)\n\t\t}\n')
+TS_NAME_LOOP = '\tfor _, trustStore := range trustStores {\n\t\t_, namedStore, _ := strings.Cut(trustStore, ":")\n' + TS_NAME + '\t}\n'
+TS_SPLIT = [(T, '\t\tstoreType, namedStore, found := strings.Cut(trustStore, ":")\n', '\t\tstoreType, _, found := strings.Cut(trustStore, ":")\n'),
+            (T, TS_NAME + '\t}\n\treturn nil\n}', '\t}\n' + TS_NAME_LOOP + '\treturn nil\n}')]
+TS_NAMES_HELPER = '// validateTrustStoreNames validates the named store of every trust store value\nfunc validateTrustStoreNames(policyName string, trustStores []string) error {\n' + TS_NAME_LOOP + '\treturn nil\n}\n\n'
+TS_HELPER_AT = '// validateTrustedIdentities validates if the policy statement is following the\n'
+TS_SPLIT_HELPER = [TS_SPLIT[0], (T, TS_NAME + '\t}\n\treturn nil\n}', '\t}\n\treturn validateTrustStoreNames(policyName, trustStores)\n}'), (T, TS_HELPER_AT, TS_NAMES_HELPER + TS_HELPER_AT)]
+NEW3B = [
+ dict(name='benign-store-rules-two-loops', expect='silent', edits=TS_SPLIT,
+      why='silent: every entry still passes the three rules before the list is accepted (which violation is reported first may differ)'),
+ dict(name='benign-store-names-loop-in-helper', expect='silent', edits=TS_SPLIT_HELPER),
+ dict(name='store-rules-two-loops-names-tail', expect='flagged(store/safe-name)',
+      edits=[TS_SPLIT[0], (T, TS_NAME + '\t}\n\treturn nil\n}', '\t}\n' + TS_NAME_LOOP.replace('range trustStores {', 'range trustStores[1:] {') + '\treturn nil\n}')]),
+ dict(name='store-rules-two-loops-names-of-type', expect='flagged(store/safe-name)',
+      edits=[TS_SPLIT[0], (T, TS_NAME + '\t}\n\treturn nil\n}', '\t}\n' + TS_NAME_LOOP.replace('_, namedStore, _ := strings.Cut(trustStore, ":")', 'namedStore, _, _ := strings.Cut(trustStore, ":")') + '\treturn nil\n}')]),
+ dict(name='store-names-helper-result-dropped', expect='flagged(store/safe-name)',
+      edits=[TS_SPLIT_HELPER[0], (T, TS_NAME + '\t}\n\treturn nil\n}', '\t}\n\t_ = validateTrustStoreNames(policyName, trustStores)\n\treturn nil\n}'), TS_SPLIT_HELPER[2]]),
+ dict(name='store-names-helper-stops-at-first', expect='flagged(store/safe-name)',
+      edits=[TS_SPLIT_HELPER[0], TS_SPLIT_HELPER[1], (T, TS_HELPER_AT, TS_NAMES_HELPER.replace(TS_NAME + '\t}\n', TS_NAME + '\t\tbreak\n\t}\n') + TS_HELPER_AT)]),
+]
+VARIANTS += NEW3B
